@@ -434,6 +434,11 @@ class KmipEngine(object):
 
                 # Handle batch error if necessary.
                 if error_occurred:
+                    # Discard whatever the failed item left pending in the
+                    # unit of work shared by the batch, so that later items
+                    # start from the committed state of the data store.
+                    self._data_session.rollback()
+
                     if batch_handling == enums.BatchErrorContinuationOption.STOP:
                         break
 
